@@ -159,9 +159,10 @@ Proof.
   apply andb_true_iff in HI as [_ HI]. exact HI.
 Qed.
 
-(* worker counts and error-channel capacities the model assumes (10 workers per pool, capacity 1,
-   the splitter's error channel unbuffered) *)
+(* what the LTS assumes about the numbers: every pool has at least one worker; every stage's
+   error channel has capacity 1 and the splitter's is unbuffered (the theorems do not depend on
+   the worker counts themselves) *)
 Example expected_constants :
-  map snd constants = [10; 10; 10; 10; 10; 10] /\
-  map snd err_channel_capacity = [1; 1; 1; 1; 1; 1; 1; 1; 1; 0].
+  forallb (fun c => Nat.ltb 0 (snd c)) constants = true /\
+  forallb (fun c => if String.eqb (fst c) "split" then Nat.eqb (snd c) 0 else Nat.eqb (snd c) 1) err_channel_capacity = true.
 Proof. split; reflexivity. Qed.
